@@ -211,7 +211,8 @@ class RuleExpandRunner(PySHACLRunType):
         gathered_functions = gather_functions(executor, self.shacl_graph)
         gathered_rules = gather_rules(executor, self.shacl_graph, from_shapes=gather_from_shapes)
 
-        for s in shapes:
+        # every known shape, not only the selected ones: a rule's condition may consult others
+        for s in self.shacl_graph.shapes:
             s.set_advanced(True)
         apply_target_types(target_types)
         if isinstance(self._target_graph, (rdflib.Dataset, rdflib.ConjunctiveGraph)):
